@@ -125,6 +125,20 @@ def handle (op : String) (args : List String) (impl : String) : Option Verdict :
       | some s => s!"sess:{repr s.role}:{repr s.out}:n={min sess.length 3}"
       | none => "sess:empty"
     return ⟨m, ok, tag⟩
+  | "stress", [n] => some <| Id.run do
+    -- n simultaneous requests for one id, none finishing before all have passed admission: by `exactly_one_admitted`
+    -- exactly one runs. Model: arrive all, enter all (any order gives the same counts).
+    let some n := n.toNat? | return bad
+    if n = 0 then return bad
+    let ids := List.range n
+    let w := run (init (List.replicate n "a")) (ids ++ ids)
+    let adm := running w "a"
+    let refd := w.th.count ("a", St.refused)
+    let m := s!"admitted={adm},refused={refd}"
+    let ok := match parseKV impl with
+      | some [("admitted", a), ("refused", r)] => a == 1 && r + 1 == n
+      | _ => false
+    return ⟨m, ok, s!"stress:n={min n 4}"⟩
   | "rerun", [_kind, n] => some <| Id.run do
     let some n := n.toNat? | return bad
     let r := rerun ⟨[], [], [], 0⟩ "a" n
